@@ -399,7 +399,7 @@ class DatasetBuilder:
 
             e_nums = self._resolve_entity_ids(e_type, ids, e_tbl)
             e_valid = e_nums.is_valid()
-            if not pc.all(e_valid).as_py():
+            if not pc.all(e_valid, min_count=0).as_py():
                 if missing == "error":
                     n_bad = len(e_nums) - pc.sum(e_valid).as_py()  # type: ignore
                     raise DataError(f"{n_bad} unknown IDs for entity class {e_type}")
